@@ -81,12 +81,16 @@ def write_input_file(case, path=None, names=None, layout='case'):
 
 
 def execute(case, budget=6000, cpu_s=3.0, sched=None, names=None, prompt=None, refuse_at='case',
-            layout='case', requested=None):
-    """Run one case at solver level (real Solver, real InputStore on a real file)."""
+            layout='case', requested=None, store=None):
+    """Run one case at solver level (real Solver, real InputStore on a real file).
+    store: an existing InputStore to solve on again (histories on one store); its current content is what is supplied."""
     classes, enums = synth.build_classes(case['world'])
-    names = case['file'] if names is None else names
-    path = write_input_file(case, names=names, layout=layout)
-    store = hb_inputs.InputStore(path)
+    if store is None:
+        names = case['file'] if names is None else names
+        path = write_input_file(case, names=names, layout=layout)
+        store = hb_inputs.InputStore(path)
+    else:
+        names = sorted(f'{sec}.{k}' for sec, k in config_items(store.config))
     sched = case['sched'] if sched is None else sched
     m = mon.Monitor(supplied=names, dup_demand=case.get('dup', False))
     rec = seams.Recorder(budget=budget, sched_seed=sched[0], period=sched[1], monitor=m)
@@ -126,7 +130,42 @@ def execute(case, budget=6000, cpu_s=3.0, sched=None, names=None, prompt=None, r
         m.finish()
     run.supplied = sorted(set(names) | set(m.answered))
     run.config_items = config_items(store.config)
+    run.store = store
     return run
+
+
+def execute_reuse(case, seed):
+    """History on ONE InputStore: solve, edit the store through its mapping API (delete / re-set an input that was
+    read), solve again with a fresh Solver.  Returns (run1, run2, case2, edits); case2 carries the edited persona."""
+    import copy
+    rng = core.Rng(core.h64('reuse', seed))
+    run1 = execute(case)
+    case2 = copy.deepcopy(case)
+    read = sorted({e[2] for e in run1.rec.events if e[0] == 'RI' and e[3][0] == 'ok'})
+    edits = []
+    store = run1.store
+    for q in read:
+        if not rng.chance(0.5) or case['persona'][q]['invalid']:
+            continue
+        if rng.chance(0.5):
+            try:
+                del store[q]
+            except Exception:
+                continue
+            edits.append(['del', q])
+        else:
+            spec = input_spec_of(case['world'], q)
+            txt, typed = gen.render_value(rng, spec)
+            try:
+                store[q] = txt
+            except Exception:
+                continue
+            case2['persona'][q] = {'text': txt, 'typed': typed, 'invalid': False}
+            edits.append(['set', q, txt])
+    case2['prompt'] = rng.chance(0.5)
+    case2['refuse_at'] = None if rng.chance(0.7) else 0
+    run2 = execute(case2, store=store)
+    return run1, run2, case2, edits
 
 
 # ----------------------------------------------------------------------------------
@@ -520,11 +559,15 @@ def cli_session(year, requested, path, answer, sched, cli, supplied0, year_forms
         argv.append('--writeback-input')
     solution_path = solution_path or os.path.join(d, 'cli_solution.ini')
     if cli.get('solution'):
-        if os.path.exists(solution_path):
+        if os.path.exists(solution_path) and not cli.get('keep_old_solution'):
             os.remove(solution_path)
         argv += ['--solution', solution_path]
-    kind, exc, out = run_cli(argv, stdin=stdin, rec=rec, year_forms=year_forms,
-                             cpu_s=cpu_s or (3.0 if year_forms else 30.0))
+    try:
+        kind, exc, out = run_cli(argv, stdin=stdin, rec=rec, year_forms=year_forms,
+                                 cpu_s=cpu_s or (3.0 if year_forms else 30.0))
+    except (core.RunTimeout, core.BudgetExceeded) as e:
+        e.monitor = m           # what the session did before it was cut off
+        raise
     run = RealRun()
     run.rec, run.monitor, run.stdout, run.kind = rec, m, out, kind
     run.stdin_log = stdin.log
